@@ -44,6 +44,21 @@ def run(chk, tier, proof_ok):
         for key, text, payload in f:
             if not any(k_ == key for k_, _, _ in findings):
                 findings.append((key, text, payload))
+    # dynamically annealed ladders with large adjustments (nu = 1) and a finite hottest temperature:
+    # the adapted ladder transiently loses its order, and must be restored as it is
+    for _ in range(30 if full else 6):
+        c = plumbing.gen_case(rng, 'resume-ladder', families=['normal'], kinds=('pt',), allow_dynamic=True,
+                              ntemps_choices=(3, 4, 5), allow_slow=False, allow_saveload=False)
+        c.dynamic, c.ann_nu, c.ann_tmax_prior, c.swap_interval, c.nchains = True, 1, False, 1, 1
+        c.betas = sorted(c.betas, reverse=True)
+        if c.betas[-1] == 0.0:
+            c.betas[-1] = 0.0625
+        ncfg += 1
+        f, k = realsearch.resume_findings(c, 40)
+        ncuts += k
+        for key, text, payload in f:
+            if not any(k_ == key for k_, _, _ in findings):
+                findings.append((key, text, payload))
     chk.coverage['search'] = {'configurations': ncfg, 'cuts': ncuts,
                               'oracle': 'bit-exact suffix history and final state of a fresh sampler (other seed) resumed '
                               'from the pickled state at EVERY iteration boundary vs the uninterrupted run'}
